@@ -276,6 +276,47 @@ async def c12_refused_name(w):
             "expected": {"registered": ["pyscript.s1", "pyscript.s2"], "definition_reached": want_ran, "left_after_unload": []}}
 
 
+async def c12_removed_definition_still_called(w):
+    """Two live functions of one context declare the same service; the one defined LAST is deleted (or redefined without the
+    name).  The service must stay (the older one still declares it) and must now reach the older definition."""
+    from types import SimpleNamespace as NS
+    from custom_components.pyscript.function import Function
+    from custom_components.pyscript.global_ctx import GlobalContext, GlobalContextMgr
+    failures, cases = [], 0
+    for sub in ("new", "legacy"):
+        for how in ("del f2\n", "@service('pyscript.other')\ndef f2():\n    note(3)\n"):
+            hass = await boot_full(legacy=(sub == "legacy"))
+            Function.service_cnt.clear()
+            Function.service2global_ctx.clear()
+            calls = []
+            g = GlobalContext("file.c12a", global_sym_table={"__name__": "file.c12a", "note": lambda v: calls.append(v)}, manager=GlobalContextMgr)
+            GlobalContextMgr.set("file.c12a", g)
+            g.set_auto_start(True)
+            for src in ("@service('pyscript.s1')\ndef f1():\n    note(1)\n", "@service('pyscript.s1')\ndef f2():\n    note(2)\n", how):
+                await run_source("file.c12a", src, global_ctx=g)
+                await settle(60)
+            cb = hass.services.table.get(("pyscript", "s1"))
+            if cb:
+                await cb(NS(data={}, context=None, domain="pyscript", service="s1"))
+                await settle(25)
+            cases += 1
+            if cb is None or calls != [1]:
+                failures.append({"signature": "c12-call-reaches-removed-definition" if calls == [2] else f"c12-removed-definition:{sub}:{how[:6]}:{calls}",
+                                 "subsystem": sub, "last_step": how, "service_registered": cb is not None, "definition_reached": list(calls), "expected": [1]})
+            g.stop()
+            GlobalContextMgr.delete("file.c12a")
+            await settle(80)
+            await shutdown()
+    # (the same signature for the four variants: one mechanism)
+    seen, uniq = set(), []
+    for f in failures:
+        if f["signature"] not in seen:
+            seen.add(f["signature"])
+            uniq.append(f)
+    return {"unit": "@service reference counting vs Home Assistant's single callback per name", "method": "fixed scenario, both subsystems x (del / redefinition without the name)",
+            "bound": "4 fixed histories", "cases": cases, "distinct_nontrivial": cases, "samples": [], "failures": uniq, "reproduced": bool(uniq)}
+
+
 async def c12_outgoing(w):
     """service.call / domain.service() with control-keyword look-alikes; data delivered must equal the given kwargs
     minus control keywords of the recognised type."""
@@ -3632,7 +3673,7 @@ async def c12_random_bounded(w):
             ctxs = {}
             owner = {}      # service name -> context
             decl = {}       # (context, function name) -> (set of service names, version)
-            listed = {}     # the same, including definitions whose decorator was refused
+            last_reg = {}   # service name -> version of the definition that registered it last
             log = []
             version = [0]
 
@@ -3645,11 +3686,12 @@ async def c12_random_bounded(w):
             ok = True
             for step in range(rng.randrange(3, 9)):
                 cn = rng.choice(["file.c12a", "file.c12b"])
-                fname = f"f{step}"     # a fresh function name each time: redefinition and 'del f' free the old function only when CPython
-                # finalises it, which is not specified (C09 not-decided clause); contexts are stopped only at the end
+                # function names from a small pool, so that definitions are also REdefinitions; 'del f' too.  (The old function's
+                # services go away when CPython finalises the function object: with reference counting that is at once, which is
+                # what the model expects; a collector-only interpreter would not satisfy it - C09's not-decided clause.)
+                fname = rng.choice(["f0", "f1", "f2"]) if w.get("redefine", True) else f"f{step}"
                 svcs = rng.sample(["pyscript.s1", "pyscript.s2"], k=rng.choice([1, 1, 2]))
-                # ('del f' is not generated: when the service disappears then depends on when CPython finalises the function object)
-                op = rng.choice(["define", "define", "define", "call"])
+                op = rng.choice(["define", "define", "define", "call"] + (["delete"] if w.get("redefine", True) else []))
                 if op == "define":
                     g = ctxs.get(cn) or mk_ctx(cn)
                     version[0] += 1
@@ -3666,9 +3708,12 @@ async def c12_random_bounded(w):
                     foreign = [x for x in svcs if owner.get(x) not in (None, cn)]
                     # (both subsystems: the whole decorator fails and none of its names stays registered)
                     accepted = [] if foreign else list(svcs)
+                    # the new function object replaces the old binding of that name whether or not its decorator was accepted
+                    decl.pop((cn, fname), None)
                     if accepted:
                         decl[(cn, fname)] = (set(accepted), v)
-                    listed[(cn, fname)] = (set(svcs), v)
+                        for x in accepted:
+                            last_reg[x] = v
                 elif op == "delete":
                     if (cn in ctxs):
                         _, _, exc = await run_source(cn, f"try:\n    del {fname}\nexcept NameError:\n    pass\n", global_ctx=ctxs[cn])
@@ -3703,7 +3748,7 @@ async def c12_random_bounded(w):
                 cases += 1
                 if got != want:
                     ok = False
-                    if len(failures) < int(w.get("max_failures", 3)):
+                    if len([f for f in failures if f["signature"] != "c12-call-reaches-removed-definition"]) < int(w.get("max_failures", 3)):
                         failures.append({"signature": f"c12-random:{sub}:{log}", "subsystem": sub, "history": [list(map(str, l)) for l in log], "registered": sorted(got), "expected": sorted(want)})
                     break
                 if op == "call" and want:
@@ -3716,8 +3761,17 @@ async def c12_random_bounded(w):
                     # the function reached is the LAST declared live function of the owning context for that name
                     cands = [v2 for (c2, f2, v2) in live[x] if c2 == owner[x]]
                     if calls != [max(cands)]:
+                        # one mechanism is a recorded finding (known_findings.json: C12-call-reaches-removed-definition): Home
+                        # Assistant keeps the callback registered LAST for the name; when that definition is replaced or deleted
+                        # while an older definition of the same context still declares the name, the count drops but the callback
+                        # stays.  Recognised exactly (the version run is the last one registered for the name and is no longer
+                        # live), reported once, and the sequence goes on; anything else is a failure of its own
+                        if calls == [last_reg.get(x)] and last_reg.get(x) not in cands:
+                            if not any(f["signature"] == "c12-call-reaches-removed-definition" for f in failures):
+                                failures.append({"signature": "c12-call-reaches-removed-definition", "subsystem": sub, "history": [list(map(str, l)) for l in log], "service": x, "ran_versions": list(calls), "live_versions": cands})
+                            continue
                         ok = False
-                        if len(failures) < int(w.get("max_failures", 3)):
+                        if len([f for f in failures if f["signature"] != "c12-call-reaches-removed-definition"]) < int(w.get("max_failures", 3)):
                             failures.append({"signature": f"c12-random-call:{sub}:{log}", "subsystem": sub, "history": [list(map(str, l)) for l in log], "service": x, "ran_versions": list(calls), "live_versions": cands})
                         break
             nontriv.add(tuple(str(l[:3]) for l in log))
@@ -3731,7 +3785,7 @@ async def c12_random_bounded(w):
             # unloading every context removes every service, without waiting for CPython to finalise anything
             left = {f"{d}.{s_}" for (d, s_) in hass.services.table if d == "pyscript" and s_ in ("s1", "s2")}
             cases += 1
-            if ok and left and len(failures) < int(w.get("max_failures", 3)):
+            if ok and left and len([f for f in failures if f["signature"] != "c12-call-reaches-removed-definition"]) < int(w.get("max_failures", 3)):
                 failures.append({"signature": f"c12-random-unload:{sub}:{log}", "subsystem": sub, "history": [list(map(str, l)) for l in log] + [["stop every context"]], "registered": sorted(left), "expected": []})
             gc.collect()
             await shutdown()
